@@ -44,7 +44,9 @@ import (
 type TrustedResourceURL struct {
 	// We declare a TrustedResourceURL not as a string but as a struct wrapping a string
 	// to prevent construction of TrustedResourceURL values through string conversion.
-	str string
+	// The field name differs from that of every other safe type, so that a value
+	// of one safe type cannot be converted to another one either.
+	resourceURL string
 }
 
 // TrustedResourceURLWithParams constructs a new TrustedResourceURL with the
@@ -53,7 +55,7 @@ type TrustedResourceURL struct {
 // Map entries with empty keys or values are ignored. The order of appended
 // keys is guaranteed to be stable but may differ from the order in input.
 func TrustedResourceURLWithParams(t TrustedResourceURL, params map[string]string) TrustedResourceURL {
-	url := t.str
+	url := t.resourceURL
 	var fragment string
 	if i := strings.IndexByte(url, '#'); i != -1 {
 		// The fragment identifier component will always appear at the end
@@ -200,7 +202,7 @@ func TrustedResourceURLFromFlag(value flag.Value) TrustedResourceURL {
 
 // String returns the string form of the TrustedResourceURL.
 func (t TrustedResourceURL) String() string {
-	return t.str
+	return t.resourceURL
 }
 
 // TrustedResourceURLAppend URL-escapes a string and appends it to the TrustedResourceURL.
@@ -215,12 +217,12 @@ func (t TrustedResourceURL) String() string {
 // `<origin>` must contain only alphanumerics, '.', ':', '[', ']', or '-', and
 // `<pathStart>` is any character except `/` and `\`.
 func TrustedResourceURLAppend(t TrustedResourceURL, s string) (TrustedResourceURL, error) {
-	if !safehtmlutil.IsSafeTrustedResourceURLPrefix(t.str) {
+	if !safehtmlutil.IsSafeTrustedResourceURLPrefix(t.resourceURL) {
 		return TrustedResourceURL{}, fmt.Errorf("cannot append to TrustedResourceURL %q because it has an unsafe prefix", t)
 	}
 	escaped := safehtmlutil.QueryEscapeURL(s)
-	if countDoubleDotSegments(t.str+escaped) != countDoubleDotSegments(t.str+strings.Repeat("x", len(escaped))) {
+	if countDoubleDotSegments(t.resourceURL+escaped) != countDoubleDotSegments(t.resourceURL+strings.Repeat("x", len(escaped))) {
 		return TrustedResourceURL{}, fmt.Errorf(`cannot append %q to TrustedResourceURL %q because it would form a ".." path segment`, s, t)
 	}
-	return TrustedResourceURL{t.str + escaped}, nil
+	return TrustedResourceURL{t.resourceURL + escaped}, nil
 }
